@@ -339,7 +339,8 @@ def enumeration_scenarios():
         info = world_info(spec)
         oplist = ["compileTTF", "compileOTF", "compileInterpolatableTTFs"]
         if info["has_ds"]:
-            oplist += ["compileVariableTTF", "compileInterpolatableOTFsFromDS", "compileInterpolatableTTFsFromDS"]
+            oplist += ["compileVariableTTF", "compileInterpolatableOTFsFromDS", "compileInterpolatableTTFsFromDS",
+                       "compileVariableTTFs"]
             if info["n_sources"] >= 2:
                 oplist += ["compileVariableCFF2"]
         for op in oplist:
